@@ -87,36 +87,36 @@ type ty struct {
 }
 
 var (
-	tText  = &ty{k: "text"}
-	tTexts = &ty{k: "texts"}
-	tInt   = &ty{k: "int"}
-	tBool  = &ty{k: "bool"}
-	tByte  = &ty{k: "byte"}
-	tCfg   = &ty{k: "cfg"}
-	tErr   = &ty{k: "err"}     // Go error -> GoIO.Err
-	tScan  = &ty{k: "scanner"} // *bufio.Scanner -> GoIO.Scanner
-	tFile  = &ty{k: "file"}    // *os.File -> GoIO.File
-	tUnit  = &ty{k: "unit"}    // no result
-	tMap1  = &ty{k: "map1"}    // map[string]int -> GoIO.Map1
-	tMap2  = &ty{k: "map2"}    // map[string]map[string]int -> GoIO.Map2
-	tReg   = &ty{k: "registry"}
-	tSReg  = &ty{k: "sregistry"}
-	tT     = &ty{k: "T"}        // testingT -> GoIO.T
-	tOptB  = &ty{k: "optbool"}  // *bool -> Option Bool
-	tMatch = &ty{k: "matcher"}  // match.JSONMatcher / match.YAMLMatcher values (opaque)
+	tText   = &ty{k: "text"}
+	tTexts  = &ty{k: "texts"}
+	tInt    = &ty{k: "int"}
+	tBool   = &ty{k: "bool"}
+	tByte   = &ty{k: "byte"}
+	tCfg    = &ty{k: "cfg"}
+	tErr    = &ty{k: "err"}     // Go error -> GoIO.Err
+	tScan   = &ty{k: "scanner"} // *bufio.Scanner -> GoIO.Scanner
+	tFile   = &ty{k: "file"}    // *os.File -> GoIO.File
+	tUnit   = &ty{k: "unit"}    // no result
+	tMap1   = &ty{k: "map1"}    // map[string]int -> GoIO.Map1
+	tMap2   = &ty{k: "map2"}    // map[string]map[string]int -> GoIO.Map2
+	tReg    = &ty{k: "registry"}
+	tSReg   = &ty{k: "sregistry"}
+	tT      = &ty{k: "T"}       // testingT -> GoIO.T
+	tOptB   = &ty{k: "optbool"} // *bool -> Option Bool
+	tMatch  = &ty{k: "matcher"} // match.JSONMatcher / match.YAMLMatcher values (opaque)
 	tMatchs = &ty{k: "matchers"}
-	tMErr  = &ty{k: "merr"}     // match.MatcherError
-	tMErrs = &ty{k: "merrs"}
-	tSt    = &ty{k: "st"}
-	tSet   = &ty{k: "set"}  // set (map[string]struct{}) -> GoIO.GoSet
-	tSMap  = &ty{k: "smap"} // map[string]string -> GoIO.SMap
-	tDirEs = &ty{k: "dirents"}
-	tDirE  = &ty{k: "dirent"}
-	tDecls = &ty{k: "godecls"} // the Decls of a parsed Go file
-	tDecl  = &ty{k: "godecl"}
-	tBools = &ty{k: "bools"} // ...CleanOpts, each represented by its only field Sort
-	tCOpt  = &ty{k: "cleanopt"}
-	tBad   = &ty{k: "?"}
+	tMErr   = &ty{k: "merr"} // match.MatcherError
+	tMErrs  = &ty{k: "merrs"}
+	tSt     = &ty{k: "st"}
+	tSet    = &ty{k: "set"}  // set (map[string]struct{}) -> GoIO.GoSet
+	tSMap   = &ty{k: "smap"} // map[string]string -> GoIO.SMap
+	tDirEs  = &ty{k: "dirents"}
+	tDirE   = &ty{k: "dirent"}
+	tDecls  = &ty{k: "godecls"} // the Decls of a parsed Go file
+	tDecl   = &ty{k: "godecl"}
+	tBools  = &ty{k: "bools"} // ...CleanOpts, each represented by its only field Sort
+	tCOpt   = &ty{k: "cleanopt"}
+	tBad    = &ty{k: "?"}
 )
 
 func pairOf(a, b *ty) *ty { return &ty{k: "pair", a: a, b: b} }
@@ -271,7 +271,7 @@ var funcSpecs = []funcSpec{
 	{pkg: "snaps", name: "standaloneOccurrenceFMT", sig: "s:string,i:int->string", out: "IO"},
 	{pkg: "snaps", name: "occurrences", sig: "tests:map[string]int,count:int,formatter:func(string, int) string->set", out: "IO"},
 	{pkg: "snaps", name: "examineSnaps", sig: "registry:map[string]map[string]int,used:[]string,runOnly:string,count:int,update:bool,sort:bool->[]string,error", out: "IO", fx: "rw",
-		extra:   []param{{"regexpMatchString", fnOf(pairOf(tBool, tBool), tText, tText)}, {"skipped", tTexts}}},
+		extra: []param{{"regexpMatchString", fnOf(pairOf(tBool, tBool), tText, tText)}, {"skipped", tTexts}}},
 	{pkg: "snaps", name: "isFileSkipped", sig: "dir:string,filename:string,runOnly:string->bool", out: "IO",
 		extra:  []param{{"parseFile", fnOf(pairOf(tDecls, tErr), tText)}, {"regexpMatchString", fnOf(pairOf(tBool, tBool), tText, tText)}},
 		extFns: map[string]param{"regexp.MatchString": {"regexpMatchString", fnOf(pairOf(tBool, tBool), tText, tText)}}},
@@ -352,7 +352,7 @@ type doneFn struct {
 	pnames  []string
 	anyP    map[int]bool // parameters declared `any` in Go
 	res     *ty          // the Lean result type (state prefix and Go results)
-	rets    []*ty // the Go results
+	rets    []*ty        // the Go results
 	partial bool
 	text    string
 }
